@@ -28,8 +28,8 @@ func init() {
 	// what goes back to a pool, and when, also decides whether a later render can see an earlier
 	// one (C01): the release-order obligations are claimed there as well
 	families["C01"] = append(families["C01"], func(w *World, prop string) ([]*Obligation, []string) {
-		rel := releaseOrderObligations(w)
-		return rel, []string{fmt.Sprintf("release-order obligations: %d", len(rel))}
+		rel := append(releaseOrderObligations(w), releaseOwnedObligations(w)...)
+		return rel, []string{fmt.Sprintf("release-order and release-owned obligations: %d", len(rel))}
 	})
 }
 
@@ -242,7 +242,7 @@ func lockFamily(w *World, prop string) ([]*Obligation, []string) {
 		}
 	}
 	// ---- use after release (dataflow)
-	rel := releaseOrderObligations(w)
+	rel := append(releaseOrderObligations(w), releaseOwnedObligations(w)...)
 	out = append(out, rel...)
 	return out, []string{fmt.Sprintf("guarded field accesses checked: %d; release-order obligations: %d", nacc, len(rel))}
 }
@@ -499,4 +499,126 @@ func (w *World) readSets() map[*ssa.Function]map[string]bool {
 		}
 	}
 	return rs
+}
+
+// releaseOwnedObligations: what goes back to a pool must belong to the activation that hands it
+// back - it is a parameter (the caller passed ownership), or it was taken from a pool or allocated
+// here. An object read out of memory that others can reach (a field of the engine, an entry of the
+// template cache, a child of a published tree) may still be in use by another render: releasing it
+// empties it under that render's feet and hands it to the next parse. Release methods themselves
+// (which hand back the components of their receiver) are exempt.
+func releaseOwnedObligations(w *World) []*Obligation {
+	var out []*Obligation
+	releasers := map[string]bool{}
+	for _, r := range expandFuncList(w, w.Contracts.Lists["releasers"]) {
+		releasers[r] = true
+	}
+	isReleaser := func(c *ssa.CallCommon) (string, bool) {
+		if c.IsInvoke() {
+			if c.Method.Name() == "Release" {
+				return "Release (interface)", true
+			}
+			return "", false
+		}
+		f := c.StaticCallee()
+		if f == nil || f.Pkg == nil || f.Pkg != w.Pkg {
+			return "", false
+		}
+		n := calleeName(f)
+		if releasers[n] || f.Name() == "Release" || (strings.HasPrefix(f.Name(), "Release") && f.Signature.Recv() == nil && f.Signature.Params().Len() == 1) {
+			return n, true
+		}
+		return "", false
+	}
+	cnt := map[string]int{}
+	for _, name := range sortedKeys(w.Funcs) {
+		fn := w.Funcs[name]
+		if fn.Name() == "Release" || strings.HasPrefix(fn.Name(), "Release") || releasers[name] {
+			continue
+		}
+		for _, b := range fn.Blocks {
+			for _, in := range b.Instrs {
+				ci, ok := in.(ssa.CallInstruction)
+				if !ok {
+					continue
+				}
+				c := ci.Common()
+				rn, ok := isReleaser(c)
+				if !ok {
+					continue
+				}
+				var v ssa.Value
+				if c.IsInvoke() {
+					v = c.Value
+				} else if len(c.Args) > 0 {
+					v = c.Args[0]
+				}
+				if v == nil {
+					continue
+				}
+				bad := loadedFromMemory(v, map[ssa.Value]bool{})
+				goal := "true"
+				if bad {
+					goal = "false"
+				}
+				cnt[name]++
+				pos, src := w.posAndSrc(in)
+				out = append(out, &Obligation{Name: fmt.Sprintf("%s/release-owned#%d", name, cnt[name]), Kind: "release-owned", Func: name, Pos: pos, Src: src, Goal: goal, PC: "true", Props: []string{"C02", "C01"},
+					Comment: "the object handed to " + rn + " belongs to this activation (a parameter, or taken from a pool or allocated here), not read out of shared memory" + ifs(bad, " — it is loaded from a field, a map or a slice that others can reach", ""), Custom: "(assert " + not(goal) + ")"})
+			}
+		}
+	}
+	return out
+}
+
+// loadedFromMemory: the value is (on some path) the result of reading a field, a map entry or a
+// slice element - of anything but a local variable.
+func loadedFromMemory(v ssa.Value, seen map[ssa.Value]bool) bool {
+	if seen[v] {
+		return false
+	}
+	seen[v] = true
+	switch x := v.(type) {
+	case *ssa.UnOp:
+		if x.Op != token.MUL {
+			return loadedFromMemory(x.X, seen)
+		}
+		switch a := x.X.(type) {
+		case *ssa.Alloc:
+			// a local variable: what was stored into it
+			if refs := a.Referrers(); refs != nil {
+				for _, r := range *refs {
+					if st, ok := r.(*ssa.Store); ok && st.Addr == a && loadedFromMemory(st.Val, seen) {
+						return true
+					}
+				}
+			}
+			return false
+		case *ssa.FieldAddr, *ssa.IndexAddr, *ssa.Global:
+			_ = a
+			return true
+		}
+		return true
+	case *ssa.Lookup, *ssa.Index, *ssa.Field:
+		return true
+	case *ssa.Next:
+		return true
+	case *ssa.Extract:
+		return loadedFromMemory(x.Tuple, seen)
+	case *ssa.Phi:
+		for _, e := range x.Edges {
+			if loadedFromMemory(e, seen) {
+				return true
+			}
+		}
+	case *ssa.ChangeInterface:
+		return loadedFromMemory(x.X, seen)
+	case *ssa.MakeInterface:
+		return loadedFromMemory(x.X, seen)
+	case *ssa.TypeAssert:
+		return loadedFromMemory(x.X, seen)
+	case *ssa.ChangeType:
+		return loadedFromMemory(x.X, seen)
+	}
+	return false
 }
